@@ -31,7 +31,7 @@ CHECKS = {
     "C09": dict(
         category="other",
         technique="typestate (flush/reset pairing) over enumerated paths, exactly-once call counting per path, symbolic "
-                  "evaluation of the chain composition, concatenation-order rules",
+                  "evaluation of the chain composition, concatenation-order rules; recursion-resolver rules (occurrence decided by whole location and by the resolver's own record), stateless-router rule, delegation re-send rule",
         text="Decides structural necessary conditions of first-match resolution: on every path of the router builder "
              "an emitted accumulator is reset; both routers scan from the offset and return index+1; the bus threads "
              "that offset into the next search and into the mediator, continues only on non-terminal CannotProvide and "
@@ -85,7 +85,7 @@ CHECKS["C11"] = dict(
 CHECKS["C14"] = dict(
     category="other",
     technique="path-condition analysis of as-is returns; element-coercer obligations; handler path rule for unlinked "
-              "fields",
+              "fields; tier G soundness family (type pairs compiled through the real ConversionRetort, accepted / refused against an independent table); hidden-memo family over conversion/ (key vs dependencies)",
     text="Decides, for every path of every builtin coercer provider that returns the as-is coercer, that the path "
          "condition is one of the documented justifications over FULL normalised types (equality, subset/membership, "
          "destination Any, non-generic subclass, as-is inner coercer); that structural coercers request a mandatory "
@@ -147,7 +147,7 @@ CHECKS["C07"] = dict(
 CHECKS["C05"] = dict(
     category="other",
     technique="trail/collect pairing and counter path rules over enumerated paths; mode presence rule; facade wrapper "
-              "rule; dataclass-field-order vs positional-construction rule for LoadError.input_value",
+              "rule; dataclass-field-order vs positional-construction rule for LoadError.input_value; on compiler output (tier G): trail audit of emitted loaders, control-dependence rule (no field loader under a condition on collected errors), forbid-check and escape audits shared with C03 / C04",
     text="Decides the structural part of error localisation for every container closure: each element application is "
          "protected by handlers that annotate THAT element's position (counter incremented exactly once on every "
          "continuing path, dict keys marked with ItemKey), ALL mode collects every caught error exactly once, never "
@@ -240,7 +240,7 @@ CHECKS["C12"] = dict(
     category="other",
     technique="ownership / effect analysis of shared-state writes (lock or atomic idempotent publish classification), "
               "thread-confinement (escape) check of stateful helper classes, two-phase-object equality rule, lock-body "
-              "call rule",
+              "call rule; builtin-dict rule for retort-lifetime tables (dict subclasses with a Python __setitem__), self-consuming callable rule (call path stores an attribute it reads)",
     text="Decides structural necessary conditions of safe concurrent first use: every write to retort-, provider-, class- "
          "or module-lifetime state is under a lock or is a single item assignment of a finished local into an insert-only "
          "per-retort cache (no read-modify-write, no removal, no multi-cache update); classes that change after "
@@ -277,7 +277,7 @@ CHECKS["C17"] = dict(
     technique="sibling cross-check of compiler output across model kinds (tier G: the compilation pipeline is driven for the "
               "same logical model declared as dataclass / NamedTuple / TypedDict / attrs / pydantic; emitted loaders and "
               "dumpers are reduced to kind-independent fingerprints by def-use audit and compared), converter pair audit, "
-              "layering (who-may-import) rule, introspector list rule",
+              "layering (who-may-import) rule, introspector list rule; codec-memo key audit, optional-output-field and optional-first-key audits of emitted programs shared with C11 / C03 / C04",
     text="Decides, for the enumerated logical models (7 specs) x name_mapping settings (6) x debug modes, that the loader and "
          "dumper programs emitted for every model kind agree on per-field path, bound loader/dumper function, trail, default "
          "expression (literal / typed captured constant / factory call), rejected error classes per node, unknown-key and "
@@ -297,7 +297,7 @@ CHECKS["C16"] = dict(
     technique="translation validation of generic resolution on compiler output (tier G): per parametrisation of enumerated "
               "generic dataclass hierarchies the function bound as loader/dumper of each field (with the callables it closes "
               "over) is read from the emitted namespace and compared with the scalar leaves of the annotation an independent "
-              "resolver substitutes through the hierarchy",
+              "resolver substitutes through the hierarchy; both products requested from one retort in both orders (history independence of the resolution)",
     text="Decides, for the enumerated hierarchies (containers, two parameters, re-ordered parameters, partial binding, "
          "non-generic child of a parametrised base, three levels, shadowing annotation, renamed variable, bound / constrained "
          "/ plain TypeVars used bare, two generic bases, annotations in another variable order, plain class beside a subscripted "
